@@ -239,6 +239,8 @@ fn dispatch(a: &Args, replay: Option<(Vec<String>, String)>) -> ! {
         "maptree" | "maplist" | "settree" | "setlist" => msys_dispatch(a, &sys, replay),
         "ktree" => go!(ksys::make::<ksys::KT>(a)),
         "klist" => go!(ksys::make::<ksys::KL>(a)),
+        "ktreew" => go!(ksys::make::<ksys::KTW>(a)),
+        "klistw" => go!(ksys::make::<ksys::KLW>(a)),
         "seg" => ssys::dispatch(a, replay),
         _ => die("unknown --sys"),
     }
